@@ -267,6 +267,22 @@ Theorem C02_rerun_completes_mounter :
 Proof. exact frerun_completes_m. Qed.
 Print Assumptions C02_rerun_completes_mounter.
 
+Theorem C02_opt_nofault_completes :
+  forall (cs : cbset) (g : graph) (c : cfg) (ext : bool) (d0 : list node) (rank : node -> nat)
+         (tr : list fevent) (fs : fstate) (full : list fevent),
+    (forall n x, In x (succ' g n) -> rank x < rank n) ->
+    1 <= c_K c -> c_root c < g_n g -> (forall x, In x (c_xroots c) -> x < g_n g) ->
+    (forall n x, n < g_n g -> In x (succ' g n) -> x < g_n g) ->
+    (ext = true -> forall n, ~ In (c_root c) (succ' g n)) ->
+    (forall a b, g_dkey g a = g_dkey g b -> a = b) ->
+    ext_ok g c ext d0 ->
+    faccepts_opt cs g c ext d0 tr = Some (fs, full) -> existsb is_fault tr = false ->
+    returned (fb fs) = None ->
+    exists tr2 fs2, existsb is_fault tr2 = false /\
+      faccepts g c ext d0 (full ++ tr2) = Some fs2 /\ returned (fb fs2) = Some true.
+Proof. exact fopt_nofault_completes. Qed.
+Print Assumptions C02_opt_nofault_completes.
+
 Example C02_example_progress_hypotheses :
   (forall n x, In x (succ' g_sh n) -> x < n) /\ 1 <= c_K c_sh /\ c_root c_sh < g_n g_sh /\
   (forall n x, n < g_n g_sh -> In x (succ' g_sh n) -> x < g_n g_sh) /\ c_mount c_sh = false /\
